@@ -336,7 +336,7 @@ func FamilyError(thorough bool) []*Conv {
 	n := 0
 	leaves := customLeaves(true)
 	for li, cl := range leaves {
-		if !thorough && li > 2 && cl.Name != "extend_struct" {
+		if !thorough && li > 2 && cl.Name != "extend_struct" && cl.Name != "extend_underlying" {
 			continue
 		}
 		for _, s := range nestings(g, cl.Shape, thorough) {
@@ -356,7 +356,7 @@ func FamilyError(thorough bool) []*Conv {
 		per = 15
 	}
 	for li, cl := range leaves {
-		if strings.HasPrefix(cl.Shape.Src, "*") || cl.SkipCopy || (!thorough && li > 2 && cl.Name != "extend_struct") {
+		if strings.HasPrefix(cl.Shape.Src, "*") || cl.SkipCopy || (!thorough && li > 2 && cl.Name != "extend_struct" && cl.Name != "extend_underlying") {
 			continue
 		}
 		for _, s := range randomNestings(g, cl.Shape, rng, per) {
